@@ -100,7 +100,7 @@ def main() -> int:
 
         items = MUTANTS
     for m in items:
-        if args.only and args.only not in m["id"]:
+        if args.only and not any(sub in m["id"] for sub in args.only.split(",")):
             continue
         root = scratch_copy()
         try:
@@ -124,6 +124,14 @@ def main() -> int:
     out = os.path.join(VERIF, "selftest", "results-seeded.json" if args.seeded else "results.json")
     if not args.only:
         json.dump(results, open(out, "w"), indent=1)
+    elif os.path.exists(out):
+        # a partial re-run replaces the entries it re-ran and leaves the others as they were
+        old = {r["id"]: r for r in json.load(open(out))}
+        for r in results:
+            old[r["id"]] = r
+        order = [m["id"] for m in items]
+        merged = sorted(old.values(), key=lambda r: order.index(r["id"]) if r["id"] in order else len(order))
+        json.dump(merged, open(out, "w"), indent=1)
     bad = [r for r in results if not r["as_expected"]]
     print(f"{len(results) - len(bad)}/{len(results)} as expected")
     return 1 if bad else 0
